@@ -1,10 +1,19 @@
 PROP = {
  "id": "C13",
- "specs": [],
- "functions": [],
+ "specs": [
+  "specs.subdivision"
+ ],
+ "functions": [
+  "mouette.mesh.subdivision.split_edge"
+ ],
  "level": "other",
- "explanation": "No deductive obligation yet: the editing blocks rewrite shared containers through RawMeshData / prepare() and look edges up in dict tables; the planned refine_op contracts were not built. Decided only within the stated bound by the native run-time contract against an independent reference refinement. This is NOT a proof.",
+ "explanation": "Under machine-checked contract: subdivision.split_edge (polyline edge split) - documented counts (+1 vertex, +1 edge), every original vertex in place, the new vertex exactly at the centre of the split edge, the two halves join the old extremities to the new vertex, every other edge untouched, cached connectivity dropped, the object passed in IS the result. The surface and volume editing blocks rewrite shared containers through RawMeshData / prepare() and look edges up in dict tables built from numpy rows: outside the modelled subset, decided only within the stated bound by the native run-time contract against an independent reference refinement. That part is NOT a proof.",
  "trusted_base": [
+  "A1 CPython executes the parsed AST as pyvc models it",
+  "A3 z3 is sound",
+  "utils.keyify returns the sorted tuple of its arguments",
+  "PolyLine._Connectivity.clear() drops every cached table (trusted contract)",
+  "split_edge precondition: containers carry no attribute (attribute alignment on append is property C05)",
   "independent plain-python reference refinement and face-list inspection (replay/C13.py, replay/meshcheck.py)"
  ],
  "bounded": [
@@ -16,7 +25,7 @@ PROP = {
   }
  ],
  "not_decided": [
-  "everything beyond the bound"
+  "SurfaceSubdivision.*, split_double_boundary_edges_triangles, VolumeSubdivision.* beyond the bound"
  ],
  "math": []
 }
